@@ -231,8 +231,14 @@ class ScriptRunner:
             elif kind == 'phys':
                 from .osm import new_phys
                 P[t[1]] = new_phys(self)
+                self.phys_roots[t[1]] = self._last_phys_root
             else:
                 raise Unmodelled('script fs kind ' + kind)
+            return 'ok'
+        if op == 'rawfile':
+            from .osm import raw_file
+            raw_file(self, t[1], unhx(t[2]))
+            self.last = Outcome('ok')
             return 'ok'
         if op == 'embedfile':
             ex.hooks.setdefault('embed_files', {})[tuple(unhx(t[1]))] = self.arg_bytes(t[2])
